@@ -12,6 +12,7 @@ import (
 	"flag"
 	"fmt"
 	"github.com/cosmos/cosmos-sdk/client"
+	daemonserver "github.com/tellor-io/layer/daemons/server"
 	"github.com/tellor-io/layer/daemons/server/median"
 	"math/big"
 	"math/rand"
@@ -24,6 +25,7 @@ import (
 	"sync/atomic"
 	"time"
 
+	sdklog "cosmossdk.io/log"
 	"github.com/anishathalye/porcupine"
 	clienttypes "github.com/tellor-io/layer/daemons/pricefeed/client/types"
 	servertypes "github.com/tellor-io/layer/daemons/server/types"
@@ -307,11 +309,15 @@ func runHistory(spec CaseSpec, st *stats) (viol []Violation, inconclusive string
 // return the same price for all markets (or none for all).
 func runAtomicity(spec CaseSpec, st *stats) (viol []Violation) {
 	r := rand.New(rand.NewSource(spec.Seed*104729 + int64(spec.Case)))
+	// every other atomicity history sends its updates the way the price daemon does: as one UpdateMarketPrices request
+	// to the daemon server's handler (one request = one update), not by calling the cache directly
+	viaHandler := spec.Case%8 == 5
 	markets := 2 + r.Intn(3)
 	writers := 1 + r.Intn(4)
 	readers := 1 + r.Intn(3)
 	rounds := 300
 	mte := pricefeedtypes.NewMarketToExchangePrices(time.Hour)
+	srv := daemonserver.NewServer(sdklog.NewNopLogger(), nil, nil, "").WithPriceFeedMarketToExchangePrices(mte)
 	base := time.Unix(1_700_000_000, 0)
 	var clock int64
 	var wg sync.WaitGroup
@@ -330,7 +336,13 @@ func runAtomicity(spec CaseSpec, st *stats) (viol []Violation) {
 				for m := 0; m < markets; m++ {
 					req = append(req, &servertypes.MarketPriceUpdate{MarketId: uint32(m), ExchangePrices: []*servertypes.ExchangePrice{{ExchangeId: exchanges[0], Price: uint64(n), LastUpdateTime: &ts}}})
 				}
-				mte.UpdatePrices(req)
+				if viaHandler {
+					if _, err := srv.UpdateMarketPrices(context.Background(), &servertypes.UpdateMarketPricesRequest{MarketPriceUpdates: req}); err != nil {
+						panic(err) // a well-formed request
+					}
+				} else {
+					mte.UpdatePrices(req)
+				}
 				if k%7 == 0 {
 					runtime.Gosched()
 				}
@@ -372,10 +384,89 @@ func runAtomicity(spec CaseSpec, st *stats) (viol []Violation) {
 	rg.Wait()
 	st.count("c20.atomicity.reads", reads)
 	st.count("c20.atomicity.updates", writers*rounds)
-	st.bucket("c20|atomicity|markets=%d|writers=%d|readers=%d", markets, writers, readers)
+	st.bucket("c20|atomicity|markets=%d|writers=%d|readers=%d|via-handler=%v", markets, writers, readers, viaHandler)
 	if mixed > 0 {
 		viol = append(viol, Violation{Property: "C20", Monitor: "atomicity", Sig: "read-saw-part-of-a-multi-market-update", Phase: "pricelab",
-			Detail: map[string]interface{}{"mixed_reads": mixed, "reads": reads, "markets": markets, "writers": writers, "first_witness": witness}})
+			Detail: map[string]interface{}{"via_handler": viaHandler, "mixed_reads": mixed, "reads": reads, "markets": markets, "writers": writers, "first_witness": witness}})
+	}
+	return
+}
+
+// ---- the daemon server's ingestion handler: a request is one update, a refused request is no update ----
+// Sequential: valid multi-market requests alternate with requests that carry one invalid entry (price 0 or no update
+// time) before, between or after valid ones. A refused request never completed, so the served prices after it must be
+// exactly those before it; an accepted one must be served completely.
+func runIngest(spec CaseSpec, st *stats) (viol []Violation) {
+	r := rand.New(rand.NewSource(spec.Seed*7919 + int64(spec.Case)))
+	base := time.Unix(1_700_000_000, 0)
+	for rep := 0; rep < 60; rep++ {
+		markets := 2 + r.Intn(4)
+		mte := pricefeedtypes.NewMarketToExchangePrices(time.Hour)
+		srv := daemonserver.NewServer(sdklog.NewNopLogger(), nil, nil, "").WithPriceFeedMarketToExchangePrices(mte)
+		var params []clienttypes.MarketParam
+		for m := 0; m < markets; m++ {
+			params = append(params, clienttypes.MarketParam{Id: uint32(m), MinExchanges: 1})
+		}
+		want := map[uint32]uint64{}
+		tick := int64(0)
+		for step := 0; step < 6; step++ {
+			tick++
+			ts := base.Add(time.Duration(tick) * time.Second)
+			bad := -1
+			if step%2 == 1 {
+				bad = r.Intn(markets)
+			}
+			kind := r.Intn(2)
+			var req []*servertypes.MarketPriceUpdate
+			for m := 0; m < markets; m++ {
+				t := ts
+				ep := &servertypes.ExchangePrice{ExchangeId: exchanges[0], Price: uint64(1000*tick + int64(m)), LastUpdateTime: &t}
+				if m == bad {
+					if kind == 0 {
+						ep.Price = 0
+					} else {
+						ep.LastUpdateTime = nil
+					}
+				}
+				req = append(req, &servertypes.MarketPriceUpdate{MarketId: uint32(m), ExchangePrices: []*servertypes.ExchangePrice{ep}})
+			}
+			_, err := srv.UpdateMarketPrices(context.Background(), &servertypes.UpdateMarketPricesRequest{MarketPriceUpdates: req})
+			st.count("c20.ingest.requests", 1)
+			pos, knd := "none", "-"
+			if bad >= 0 {
+				pos = map[bool]string{true: "first", false: map[bool]string{true: "last", false: "middle"}[bad == markets-1]}[bad == 0]
+				knd = []string{"price-0", "no-update-time"}[kind]
+			}
+			st.bucket("c20|ingest|markets=%d|invalid-at=%s|kind=%s", markets, pos, knd)
+			if bad < 0 {
+				if err != nil {
+					viol = append(viol, Violation{Property: "C20", Monitor: "ingest", Sig: "well-formed-update-request-refused", Phase: "pricelab", Detail: map[string]interface{}{"err": err.Error()}})
+					return
+				}
+				for m := 0; m < markets; m++ {
+					want[uint32(m)] = uint64(1000*tick + int64(m))
+				}
+			} else if err == nil {
+				viol = append(viol, Violation{Property: "C20", Monitor: "ingest", Sig: "update-request-with-an-invalid-entry-accepted", Phase: "pricelab", Detail: map[string]interface{}{"invalid_market": bad, "kind": kind}})
+				return
+			}
+			got := mte.GetValidMedianPrices(params, ts)
+			same := len(got) == len(want)
+			for k, v := range want {
+				if got[k] != v {
+					same = false
+				}
+			}
+			if !same {
+				sig := "accepted-update-request-not-served-completely"
+				if bad >= 0 {
+					sig = "refused-update-request-changed-served-prices"
+				}
+				viol = append(viol, Violation{Property: "C20", Monitor: "ingest", Sig: sig, Phase: "pricelab",
+					Detail: map[string]interface{}{"markets": markets, "invalid_market": bad, "served": fmt.Sprint(got), "want": fmt.Sprint(want)}})
+				return
+			}
+		}
 	}
 	return
 }
@@ -710,6 +801,7 @@ func main() {
 		}
 		if i%4 == 3 {
 			res.Violations = append(res.Violations, runServer(spec, st)...)
+			res.Violations = append(res.Violations, runIngest(spec, st)...)
 		}
 		if i%4 == 2 {
 			res.Violations = append(res.Violations, runFirstUpdates(spec, st, map[string]int{"quick": 6000, "thorough": 20000}[*tier])...)
